@@ -242,35 +242,6 @@ fn routing_path_contract() {
     }
 }
 
-/// C13 (known finding, call-site replay): for an NFT-bound group [Bound, payload, Bound] Block::generate_consensus_values
-/// computes payload value × multiplier − fee for the output, counts the fee in total_fees_atr, but hands
-/// Transaction::create_rebroadcast_bound_transaction the INPUT payload (value × multiplier) for both sides — the payload
-/// comes back without the fee deducted. The arguments below are the ones that call site passes.
-#[test]
-fn group_rebroadcast_withholds_the_fee() {
-    let mut orig = Transaction::default();
-    let mk = |ty: SlipType, amount: u64, idx: u8| { let mut s = Slip::default(); s.public_key = [3u8; 33]; s.amount = amount; s.slip_type = ty; s.block_id = 1; s.tx_ordinal = 2; s.slip_index = idx; s };
-    let (slip1, slip2, slip3) = (mk(SlipType::Bound, 0, 0), mk(SlipType::Normal, 1_000_000, 1), mk(SlipType::Bound, 0, 2));
-    orig.to = vec![slip1.clone(), slip2.clone(), slip3.clone()];
-    let expected_atr_multiplier: u64 = 1;
-    let atr_fee: u64 = orig.get_serialized_size() as u64 * 7;     // previous_block_avg_fee_per_byte = 7
-    // --- as in Block::generate_consensus_values, NFT branch
-    let atr_payout_for_slip = slip2.amount * expected_atr_multiplier;
-    assert!(atr_payout_for_slip > atr_fee);
-    let mut input2 = slip2.clone();
-    input2.amount = atr_payout_for_slip;
-    let output1 = slip1.clone();
-    let output3 = slip3.clone();
-    let rebroadcast_tx = Transaction::create_rebroadcast_bound_transaction(&orig, output1, input2.clone(), output3);
-    // ---
-    let paid_in: u64 = rebroadcast_tx.from.iter().map(|s| s.amount).sum();
-    let paid_out: u64 = rebroadcast_tx.to.iter().map(|s| s.amount).sum();
-    if paid_in - paid_out != atr_fee {
-        witness(format!("NFT-bound group with a payload of {} (multiplier {}), rebroadcast fee {}: the rebroadcast transaction has inputs {:?} and outputs {:?} — it withholds {} while the block counts {} in total_fees_atr; the payload comes back with {} instead of value × multiplier − fee = {}",
-            slip2.amount, expected_atr_multiplier, atr_fee, rebroadcast_tx.from.iter().map(|s| s.amount).collect::<Vec<_>>(), rebroadcast_tx.to.iter().map(|s| s.amount).collect::<Vec<_>>(),
-            paid_in - paid_out, atr_fee, rebroadcast_tx.to[1].amount, atr_payout_for_slip - atr_fee));
-    }
-}
 
 /// C02 (second sentence): an accepted user transaction never pays out more than it consumes — for plain payments and
 /// for NFT-creating (Bound) transactions alike; surplus on the input side is fine
